@@ -8,11 +8,12 @@ import os
 os.environ["SA_NO_ALPHA"] = "1"
 from sa.core.pyfacts import Repo
 from sa.core.alpha import describe, REF_FILE
+from sa.core.align import local_sigs
 repo = Repo()
 out = {}
 for f in repo.all_functions():
     if f.parent is None:
         h, order = describe(f.node)
-        out[f.qual] = {"hash": h, "locals": order}
+        out[f.qual] = {"hash": h, "locals": order, "sigs": local_sigs(f.node)}
 REF_FILE.write_text(json.dumps(out, indent=0, sort_keys=True))
 print(len(out), "functions")
